@@ -53,7 +53,7 @@ DEVICES = {
 
 CLASSES = [
     "currents_dict_unbalanced", "currents_callable_always", "currents_callable_after_t0", "currents_callable_window", "currents_callable_narrow_window",
-    "unknown_terminal", "unknown_terminal_callable", "epsilon_constant", "epsilon_callable_somewhere", "dt_init_gt_dt_max", "terminal_psi_gt_1",
+    "unknown_terminal", "unknown_terminal_callable", "epsilon_constant", "epsilon_callable_somewhere", "epsilon_after_t0", "dt_init_gt_dt_max", "terminal_psi_gt_1",
     "multiplier_out_of_range", "drag_out_of_range", "step_size_nonpositive", "tolerance_nonpositive", "unknown_solver", "gpu_without_cupy",
     "terminal_off_boundary", "terminal_point_contact", "seed_other_layer", "seed_other_film", "seed_other_terminals", "seed_other_mesh", "vector_potential_shape",
     "polygon_self_intersecting", "polygon_multiply_connected", "film_unnamed", "duplicate_terminal_names", "duplicate_hole_names",
@@ -234,6 +234,12 @@ def check_case(spec):
                     return 1.0 + _m if (x > _c[0] and y > _c[1]) else 0.9
 
                 kw["disorder_epsilon"] = eps
+            elif cls == "epsilon_after_t0":
+                # a time-dependent epsilon that is fine at t = 0 and exceeds 1 everywhere for the last 70 % of the run
+                def eps_t(r, *, t, _m=mag, _t0=0.3 * opt["solve_time"]):
+                    return 1.0 + _m if t > _t0 else 0.9
+
+                kw["disorder_epsilon"] = eps_t
             elif cls == "dt_init_gt_dt_max":
                 opt["dt_init"] = opt["dt_max"] * (1 + mag)
             elif cls == "terminal_psi_gt_1":
